@@ -374,6 +374,47 @@ __CPROVER_assigns(g_fes_calls, g_clear_calls)
                   desc="make_filtration_non_decreasing, wrapper: every simplex is visited once (for_each_simplex), the filtration cache is dropped exactly when a value changed, and that is what is returned"))
     return U
 
+def reset_units():
+    """Simplex_tree::reset_filtration: every value of dimension >= min_dim is rewritten by the recursive worker (abstract)
+    and the filtration cache is dropped afterwards."""
+    G = ("typedef double Filtration_value;\nunsigned g_rec_calls, g_clear_calls; double g_rec_v; int g_rec_d; bool g_clear_before_rec; int root_;\n"
+         "static void rec_reset_stub(int* sib, Filtration_value v, int d) { g_rec_calls++; g_rec_v = v; g_rec_d = d; }\n"
+         "static void clear_filtration(void) { g_clear_calls++; if (g_rec_calls == 0) g_clear_before_rec = true; }\ndouble nondet_double(void); int nondet_int(void);\n")
+    fn = Fn(ST, r"void reset_filtration\(const Filtration_value& filt_value, int min_dim = 0\)", "reset_filtration", """
+__CPROVER_requires(g_rec_calls == 0 && g_clear_calls == 0 && !g_clear_before_rec && filt_value == filt_value)
+__CPROVER_ensures(g_rec_calls == 1 && g_rec_v == filt_value && g_rec_d == min_dim)
+__CPROVER_ensures(g_clear_calls >= 1 && !g_clear_before_rec)
+__CPROVER_assigns(g_rec_calls, g_rec_v, g_rec_d, g_clear_calls, g_clear_before_rec)
+""", sig_subs=[(r"int min_dim = 0", "int min_dim")], subs=[(r"rec_reset_filtration\(&root_, ", "rec_reset_stub(&root_, ")], canary=(r"min_dim\);", "min_dim + 1);"))
+    return [Unit("value.reset_filtration.cache", "C03", [fn], enforce="reset_filtration", globals_=G, inputs=["in_v", "in_d"], replay=replay_by_native_search,
+                 harness="int main(void) {\n  double in_v = nondet_double(); int in_d = nondet_int(); g_rec_calls = 0; g_clear_calls = 0; g_clear_before_rec = 0;\n  reset_filtration(in_v, in_d);\n  __CPROVER_assert(0, \"VP_REACH\");\n  return 0;\n}\n",
+                 desc="reset_filtration: the recursive worker runs once from the root with the given value and minimal dimension, and the filtration cache is dropped after the values changed")]
+
+def expansion_units():
+    """Simplex_tree::expansion(max_dim): nothing happens for max_dim <= 1; otherwise the filtration cache is dropped BEFORE the
+    first insertion and every vertex that has children gets its siblings expanded up to max_dim - 1 (the recursive worker
+    and the root dictionary are abstract)."""
+    NR = 4
+    G = (f"#define NR {NR}\ntypedef size_t Dictionary_it;\nint dimension_; size_t g_nroot; bool g_hc[NR]; unsigned g_clear_calls; unsigned g_exp_calls; unsigned g_exp_mask; int g_exp_k; bool g_exp_before_clear, g_exp_bad_k;\n"
+         "static void clear_filtration(void) { g_clear_calls++; }\n"
+         "static bool has_children_stub(size_t r) { __CPROVER_assert(r < NR, \"root member\"); return g_hc[r]; }\n"
+         "static void sib_exp_stub(size_t r, int k) { if (g_clear_calls == 0) g_exp_before_clear = true; if (g_exp_calls > 0 && k != g_exp_k) g_exp_bad_k = true; g_exp_calls++; g_exp_mask |= 1u << r; g_exp_k = k; dimension_ = nondet_int(); __CPROVER_assume(dimension_ >= -1 && dimension_ <= 100); }\n"
+         "static unsigned x_mask(void) { unsigned m = 0; for (size_t r = 0; r < NR; r++) if (r < g_nroot && g_hc[r]) m |= 1u << r; return m; }\n"
+         "int nondet_int(void); size_t nondet_size(void);\n").replace("static void clear_filtration", "int nondet_int(void);\nstatic void clear_filtration", 1)
+    fn = Fn(ST, r"void expansion\(int max_dim\)", "expansion", """
+__CPROVER_requires(g_nroot <= NR && g_clear_calls == 0 && g_exp_calls == 0 && g_exp_mask == 0 && !g_exp_before_clear && !g_exp_bad_k && max_dim <= 100)
+__CPROVER_ensures(max_dim > 1 || (g_clear_calls == 0 && g_exp_calls == 0 && dimension_ == __CPROVER_old(dimension_)))
+__CPROVER_ensures(max_dim <= 1 || (g_clear_calls >= 1 && !g_exp_before_clear))
+__CPROVER_ensures(max_dim <= 1 || (g_exp_mask == x_mask() && !g_exp_bad_k && (g_exp_calls == 0 || g_exp_k == max_dim - 1)))
+__CPROVER_assigns(dimension_, g_clear_calls, g_exp_calls, g_exp_mask, g_exp_k, g_exp_before_clear, g_exp_bad_k)
+""", subs=[(r"for \(Dictionary_it (\w+) = root_\.members_\.begin\(\);\s*\1 != root_\.members_\.end\(\); \+\+\1\)", r"for (Dictionary_it \1 = 0; \1 < g_nroot; ++\1)"),
+           (r"has_children\((\w+)\)", r"has_children_stub(\1)"), (r"siblings_expansion\((\w+)->second\.children\(\), ([^;]*)\);", r"sib_exp_stub(\1, \2);")],
+            canary=(r"max_dim - 1\)", "max_dim)"))
+    return [Unit("order.cache.expansion", "C03", [fn], enforce="expansion", globals_=G, unwind=NR + 2, route="B", bound=f"at most {NR} vertices in the root dictionary; which of them have children is symbolic",
+                 inputs=["in_k", "g_nroot", "g_hc"], replay=replay_by_native_search,
+                 harness="int main(void) {\n  int in_k = nondet_int(); g_nroot = nondet_size(); dimension_ = nondet_int(); g_clear_calls = 0; g_exp_calls = 0; g_exp_mask = 0; g_exp_before_clear = 0; g_exp_bad_k = 0;\n  expansion(in_k);\n  __CPROVER_assert(0, \"VP_REACH\");\n  return 0;\n}\n",
+                 desc="expansion(max_dim): a no-op for max_dim <= 1; otherwise the filtration cache is dropped before the first simplex is inserted, and exactly the vertices with children have their siblings expanded, all with max_dim - 1")]
+
 NATIVE_RESULTS = []
 
 
@@ -426,6 +467,8 @@ def units(tier):
     U += ignorer_units()
     U += cache_units()
     U += mfnd_units()
+    U += reset_units()
+    U += expansion_units()
     U += extended_units(tier)
     # K6: the cubical comparator (shared with C13)
     for u in c13.comparator_units():
